@@ -343,9 +343,9 @@ def gen_rms(rng, widen):
 def gen_cases(ctx):
     rng = ctx.rng
     cases = []
-    for _ in range(ctx.budget(480, 12000)):
+    for _ in range(ctx.budget(480, 4800)):
         cases.append(gen_vn(rng, ctx.widen))
-    for _ in range(ctx.budget(200, 4000)):
+    for _ in range(ctx.budget(200, 2000)):
         cases.append(gen_rms(rng, ctx.widen))
     return cases
 
